@@ -11,6 +11,7 @@
 (*  "from_lin" [N, path, ch]          tree built from a path has exactly   *)
 (*  "from_ssa" [N, path, ch]          the nodes the path denotes           *)
 (*  "from_ssa_multi" like from_ssa, multi-way steps: path nodes \subseteq tree  *)
+(*  "subtree"  [N, ch, node, size, leaves, branches]  get_subtree result is a frontier   *)
 (*  "edge"     [inputs, epath, got]   got = EdgeToSsa(inputs, epath)       *)
 (* Nodes are sets of 0-based leaf ids.  Verdict <<"V", c, clause>>.        *)
 (***************************************************************************)
@@ -64,6 +65,15 @@ Clause(k) ==
             IF ~WellFormedSsa(k.N, k.path) THEN "input-path-malformed"
             ELSE IF ~CompleteCh(k) THEN "tree-not-complete"
             ELSE IF ~(TreeOfSsa(k.N, k.path) \subseteq Nodes(k)) THEN "tree-differs-from-path" ELSE "ok"
+      [] k.kind = "subtree" ->             \* get_subtree(node, size): a frontier of tree nodes below `node` + the branches between
+            IF ~CompleteCh(k) THEN "tree-not-complete"
+            ELSE IF UNION k.leaves # k.node \/ \E a, b \in k.leaves : a # b /\ a \cap b # {} THEN "subtree-leaves-do-not-partition-node"
+            ELSE IF \E a \in k.leaves : Cardinality(a) > 1 /\ a \notin Nodes(k) THEN "subtree-leaf-is-not-a-tree-node"
+            ELSE IF Cardinality(k.leaves) > k.size /\ k.size >= 1 THEN "subtree-larger-than-requested"
+            ELSE IF k.branches # {q \in Nodes(k) : q \subseteq k.node /\ \E a \in k.leaves : a \subseteq q /\ a # q}
+                 THEN "subtree-branches-differ"
+            ELSE IF Cardinality(k.leaves) < k.size /\ \E a \in k.leaves : Cardinality(a) > 1 THEN "subtree-stopped-early"
+            ELSE "ok"
       [] k.kind = "edge" ->
             IF AsSets(k.got) # EdgeToSsa(k.inputs, k.epath) THEN "edge-path-differs" ELSE "ok"
       [] OTHER -> "unknown-kind"
